@@ -851,6 +851,12 @@ PROPERTIES["C19"]["explanation"] += " (SEM DTSHAPE) known finding: the date-time
 PROPERTIES["C19"]["rules"] += [("FMTTAB", lambda ctx: rule_fmttab(ctx.lib, ctx.nbt, repo=ctx.repo or _facts.REPO))]
 PROPERTIES["C19"]["explanation"] += " (FMTTAB) Every documented example of the date-time format tables in the manual, and every date-time string of the library, is accepted by a format of parse_datetime."
 
+from paramshadow import rule_paramshadow  # noqa: E402
+
+for _pid in ("C01", "C09", "C02"):
+    PROPERTIES[_pid]["rules"] += [("PARAMSHADOW", lambda ctx: rule_paramshadow(ctx.lib))]
+    PROPERTIES[_pid]["explanation"] += " (PARAMSHADOW) In the checker the parameters of a function are registered in a scope opened after (inside) the registration of the function itself, so a parameter named like the function shadows it, as it does in the compiler."
+
 NOT_APPLICABLE = {
     "C03": "numerical agreement of conversion factors over 500 units is a statement about run-time values; no structural clause is a necessary condition that is not already covered under C04/C11/C12 (static analysis cannot bound the arithmetic)",
     "C14": "a statement about the decimal rendering of every f64 under every format setting; the code delegates to pretty_dtoa/num_format and no structural clause of Number::pretty_print_with_dtoa_config can be decided without evaluating it",
